@@ -17,6 +17,7 @@ pub mod explore;
 pub mod inject;
 pub mod node;
 pub mod props;
+pub mod sched;
 pub mod world;
 
 fn main() {
